@@ -40,6 +40,82 @@ class Match(dict):
     """Model of an re.Match object."""
 
 
+class FuncRef:
+    """A repository function (or bound method) used as a value: calling it interprets the function."""
+
+    def __init__(self, runner, finfo, selfobj=None):
+        self.runner, self.finfo, self.selfobj = runner, finfo, selfobj
+
+    def __call__(self, *args, **kw):
+        if self.selfobj is not None:
+            return self.runner.run_function(self.finfo, self.selfobj, args, kw)
+        decos = {U(d) for d in self.finfo.node.decorator_list}
+        plain = self.finfo.cls is None or "staticmethod" in decos
+        if plain:
+            return self.runner.run_function(self.finfo, None, args, kw, plain=True)
+        return self.runner.run_function(self.finfo, args[0], args[1:], kw)
+
+    def __deepcopy__(self, memo):
+        return self
+
+    def __repr__(self):
+        return f"<function {self.finfo.key}>"
+
+
+class GenModel:
+    """A generator object: the generator function's body is interpreted in a thread of its own that runs only between a next() and the
+    following yield (strict hand-over), so the interleaving with the consumer is the one Python has."""
+
+    def __init__(self, runner, finfo, selfobj, args, kw, plain):
+        import threading
+        self._go, self._got = threading.Semaphore(0), threading.Semaphore(0)
+        self._value, self._exc, self._done, self._started = None, None, False, False
+        self._runner = runner
+
+        def body():
+            self._go.acquire()
+            try:
+                runner._yield_stack.append(self)
+                try:
+                    runner.run_function(finfo, selfobj, args, kw, plain=plain, _as_generator=True)
+                finally:
+                    runner._yield_stack.pop()
+            except BaseException as exc:  # noqa: BLE001  (handed to the consumer)
+                self._exc = exc
+            self._done = True
+            self._got.release()
+
+        self._thread = threading.Thread(target=body, daemon=True)
+
+    def emit(self, value):
+        self._value = value
+        self._got.release()
+        self._go.acquire()
+
+    def __iter__(self):
+        return self
+
+    def __next__(self):
+        if self._done:
+            raise StopIteration
+        if not self._started:
+            self._started = True
+            self._thread.start()
+        depth = self._runner.depth
+        self._go.release()
+        self._got.acquire()
+        self._runner.depth = depth
+        if self._done:
+            if self._exc is not None:
+                exc, self._exc = self._exc, None
+                raise exc
+            raise StopIteration
+        return self._value
+
+    def __deepcopy__(self, memo):
+        return self
+
+
 class CounterModel(dict):
     """Model of collections.Counter: a mapping whose missing keys count as 0."""
 
@@ -65,6 +141,8 @@ class ObjRunner:
         self.depth_limit = depth_limit
         self.calls = []  # (class, method) executed, for the evidence
         self.module_state = {}
+        self._yield_stack = []
+        self._paths = None
 
     def explore(self, thunk, limit=64):
         """Run thunk() once per path through the undetermined tests it meets; thunk must build its own fresh model state.
@@ -111,6 +189,28 @@ class ObjRunner:
         obj = Obj({"__class__": clsname})
         if self.find(clsname, "__init__") is not None:
             self.call(obj, "__init__", *args, **kw)
+            return obj
+        c = self.cinfo(clsname)
+        fields = [(st.target.id, st.value) for k in (reversed(self.prog.mro(c)) if c is not None else []) for st in k.node.body
+                  if isinstance(st, ast.AnnAssign) and isinstance(st.target, ast.Name)]
+        record_like = c is not None and (any(U(b).split(".")[-1] == "NamedTuple" for k in self.prog.mro(c) for b in k.node.bases)
+                                         or any(U(d).split("(")[0].split(".")[-1] == "dataclass" for d in c.node.decorator_list))
+        if record_like and fields:
+            # a record class (typing.NamedTuple, dataclass): positional and keyword arguments bind to the annotated fields in order
+            if len(args) > len(fields) or any(k_ not in dict(fields) for k_ in kw):
+                raise Flow("raise", f"TypeError({clsname}() got unexpected arguments)", c.node)
+            for (name, default), val in zip(fields, args):
+                obj[name] = val
+            for name, default in fields[len(args):]:
+                if name in kw:
+                    obj[name] = kw[name]
+                elif default is not None:
+                    obj[name] = Interp(dict(self.module_env(c.module.rel)), name_hook=self.names, call_hook=self.hook).ev(default)
+                else:
+                    raise Flow("raise", f"TypeError({clsname}() missing argument {name!r})", c.node)
+            obj["__fields__"] = [n_ for n_, _ in fields]
+        elif args or kw:
+            raise AnalysisError(f"object model: {clsname}(...) with arguments but no constructor in the repository")
         return obj
 
     def call(self, obj, meth, *args, **kw):
@@ -142,7 +242,9 @@ class ObjRunner:
     def call_function(self, rel, name, *args, **kw):
         return self.run_function(self.prog.func(rel, name), None, args, kw, plain=True)
 
-    def run_function(self, f, selfobj, args, kw, plain=False):
+    def run_function(self, f, selfobj, args, kw, plain=False, _as_generator=False):
+        if not _as_generator and _is_generator(f.node):
+            return GenModel(self, f, selfobj, tuple(args), dict(kw), plain)
         self.depth += 1
         if self.depth > self.depth_limit:
             raise AnalysisError(f"object model: call depth exceeded in {f.key}")
@@ -185,6 +287,8 @@ class ObjRunner:
             it = (ForkInterp(env, self.oracle, call_hook=self.hook, loop_hook=self.loop, strict=True, name_hook=self.names, attr_hook=self.attrs) if self.fork
                   else Interp(env, call_hook=self.hook, loop_hook=self.loop, strict=True, name_hook=self.names, attr_hook=self.attrs))
             it.str_hook = self.text_of
+            if _as_generator:
+                it.yield_hook = self._emit
             try:
                 it.run(node.body)
             except Flow as fl:
@@ -196,6 +300,18 @@ class ObjRunner:
             return None
         finally:
             self.depth -= 1
+
+    def _emit(self, value):
+        if not self._yield_stack:
+            raise AnalysisError("object model: yield outside a generator evaluation")
+        self._yield_stack[-1].emit(value)
+
+    def eval_expr(self, rel, node, env):
+        """Value of an expression standing at module level of rel (import-time evaluation of a constant)."""
+        full = dict(env)
+        it = Interp(full, call_hook=self.hook, loop_hook=self.loop, strict=True, name_hook=self.names, attr_hook=self.attrs)
+        it.str_hook = self.text_of
+        return it.ev(node)
 
     # ------------------------------------------------------------------ hooks
     _BUILTIN_TYPES = {"str": str, "int": int, "float": float, "list": list, "dict": dict, "tuple": tuple, "set": set, "bool": bool}
@@ -213,9 +329,28 @@ class ObjRunner:
             imp = self._imported_class(node, node.id)
             if imp is not None:
                 return self.class_ref(imp)
+            if node.id == "__file__":
+                from .fsmodel import PKG_ROOT
+                return f"{PKG_ROOT}/{getattr(getattr(node, '_module', None), 'rel', self.rel)}"
+            if isinstance(node.ctx, ast.Load) and not (isinstance(getattr(node, "_parent", None), ast.Call) and node._parent.func is node):
+                here = getattr(getattr(node, "_module", None), "rel", self.rel)
+                if f"{here}::{node.id}" in self.prog.funcs:
+                    return FuncRef(self, self.prog.funcs[f"{here}::{node.id}"])  # a repository function used as a value
+                impf = self._imported_function(node, node.id)
+                if impf is not None:
+                    return FuncRef(self, impf)
+                if node.id in ("len", "str", "int", "float", "abs", "min", "max", "sorted", "bool", "repr"):
+                    return __builtins__[node.id] if isinstance(__builtins__, dict) else getattr(__builtins__, node.id)
             return NotImplemented
         if node.value.id == "string" and hasattr(__import__("string"), node.attr) and isinstance(getattr(__import__("string"), node.attr), str):
             return getattr(__import__("string"), node.attr)
+        is_callee = isinstance(getattr(node, "_parent", None), ast.Call) and node._parent.func is node
+        if node.value.id == "operator" and not is_callee and node.attr in ("lt", "le", "gt", "ge", "eq", "ne", "add", "sub", "mul", "truediv", "neg", "not_", "itemgetter", "attrgetter"):
+            return getattr(__import__("operator"), node.attr)
+        if node.value.id == "str" and "str" not in interp.env and not is_callee and hasattr(str, node.attr):
+            return getattr(str, node.attr)
+        if node.value.id == "math" and not is_callee and isinstance(getattr(__import__("math"), node.attr, None), float):
+            return getattr(__import__("math"), node.attr)
         target_rel = self._module_alias(node, node.value.id)
         if target_rel is not None:
             mod = self.prog.modules[target_rel]
@@ -272,7 +407,7 @@ class ObjRunner:
             else:
                 raise AnalysisError(f"object model: loop over the object {U(st.iter)!r}")
         broke = False
-        for item in list(seq):
+        for item in (seq if isinstance(seq, GenModel) else list(seq)):
             interp.store(st.target, item, st)
             try:
                 interp.run(st.body)
@@ -426,6 +561,8 @@ class ObjRunner:
             if isinstance(recv, dict) and "__class__" not in recv and attr in ("get", "keys", "values", "items", "setdefault", "pop", "update"):
                 res = getattr(recv, attr)(*args)
                 return list(res) if attr in ("keys", "values", "items") else res
+            if isinstance(recv, dict) and "__class__" in recv and callable(recv.get(attr)) and not isinstance(recv.get(attr), dict):
+                return self._apply(recv[attr], args, kw, call)  # a function stored in a field of the object
             if isinstance(recv, dict) and "__class__" in recv:
                 if recv.get("__is_class__"):
                     f = self.find(recv["__class__"], attr)
@@ -447,6 +584,39 @@ class ObjRunner:
                 return getattr(str, call.func.attr)(*args, **kw)  # unbound form str.ljust(s, n)
             except (TypeError, ValueError) as exc:
                 raise Flow("raise", f"{type(exc).__name__}({str(exc)!r})", call) from None
+        if isinstance(call.func, ast.Name) and callable(interp.env.get(name)) and not isinstance(interp.env.get(name), dict):
+            return self._apply(interp.env[name], args, kw, call)  # a function held in a variable (table dispatch, parameter)
+        if isinstance(call.func, ast.Name) and name not in interp.env:
+            genv = self.module_env(getattr(getattr(call, "_module", None), "rel", self.rel))
+            if callable(genv.get(name)) and not isinstance(genv.get(name), dict):
+                return self._apply(genv[name], args, kw, call)
+        if isinstance(call.func, ast.Subscript):
+            fn_ = interp.ev(call.func)
+            if callable(fn_) and not isinstance(fn_, dict):
+                return self._apply(fn_, args, kw, call)  # TABLE[key](...)
+        if isinstance(call.func, ast.Call):
+            fn_ = interp.ev(call.func)
+            if callable(fn_) and not isinstance(fn_, dict):
+                return self._apply(fn_, args, kw, call)  # TABLE.get(key, default)(...)
+        if name.startswith("operator.") and hasattr(__import__("operator"), name[9:]) and "operator" not in interp.env:
+            return self._apply(getattr(__import__("operator"), name[9:]), args, kw, call)
+        if name == "next" and name not in interp.env and args and isinstance(args[0], GenModel):
+            try:
+                return next(args[0])
+            except StopIteration:
+                if len(args) > 1:
+                    return args[1]
+                raise Flow("raise", "StopIteration()", call) from None
+        if name == "iter" and name not in interp.env and len(args) == 1 and isinstance(args[0], (list, tuple, GenModel)):
+            return args[0] if isinstance(args[0], GenModel) else iter(list(args[0]))
+        if name in ("types.MappingProxyType", "MappingProxyType") and len(args) == 1 and isinstance(args[0], dict):
+            return args[0]  # a read-only view: the mapping itself, for evaluation purposes
+        if name in ("Path", "pathlib.Path", "PurePath", "pathlib.PurePath") and name not in interp.env and len(args) == 1 and (
+                isinstance(args[0], str) or (isinstance(args[0], dict) and args[0].get("__class__") == "<path>")):
+            if self._paths is None:
+                from .fsmodel import FileSystemModel
+                self._paths = FileSystemModel()
+            return self._paths.path(args[0]["__str__"] if isinstance(args[0], dict) else args[0])
         if name in ("Counter", "collections.Counter") and name not in interp.env and len(args) <= 1 and not kw:
             c_ = CounterModel()
             if args:
@@ -467,6 +637,19 @@ class ObjRunner:
             if imp is not None:
                 return self.run_function(imp, None, args, kw, plain=True)
         raise AnalysisError(f"object model: unsupported call {U(call)[:80]!r}")
+
+    def _apply(self, fn, args, kw, call):
+        """Call a function value: a repository function, or a pure function of the standard library (str methods, operator)."""
+        if isinstance(fn, FuncRef):
+            return fn(*args, **kw)
+        if any(isinstance(a, Unknown) for a in args):
+            return Unknown(f"result of {U(call)[:40]}")
+        try:
+            return fn(*args, **kw)
+        except Flow:
+            raise
+        except (TypeError, ValueError, KeyError, IndexError, ZeroDivisionError, AttributeError) as exc:
+            raise Flow("raise", f"{type(exc).__name__}({str(exc)!r})", call) from None
 
     def _imported_function(self, call, name):
         """Repository function bound by `from .m import name` in the calling module."""
@@ -566,3 +749,15 @@ class ObjRunner:
         if m is None:
             return None
         return Match({"__class__": "re.Match", "string": m.string, "__m__": m})
+
+
+def _is_generator(fn):
+    todo = list(fn.body)
+    while todo:
+        n = todo.pop()
+        if isinstance(n, (ast.Yield, ast.YieldFrom)):
+            return True
+        if isinstance(n, (ast.FunctionDef, ast.AsyncFunctionDef, ast.Lambda, ast.ClassDef)):
+            continue
+        todo.extend(ast.iter_child_nodes(n))
+    return False
